@@ -135,7 +135,8 @@ class C03(Check):
             "to 3) DATES/TSTEP keyword versus the full deck.  Oracle: the structural dump of every serialized member of "
             "ScheduleState (unit-system cache and keyword locations canonicalised) of states 0..k is identical across the tails; "
             "only the end time of state k may differ.  Non-trivial: k >= 1 and the tails add keywords naming existing wells/groups; "
-            "distinct by text hash.")
+            "distinct by text hash."
+            " Extended during the build phase: MSW / network / UDA / VFP tables of every axis kind, ~25 rarely used well and group keywords, ~35 keywords with a handler that hardly any deck uses (kw_rare: WSALT WFOAM WPOLYMER WMICP WINJDAM WINJCLN CSKIN COMPORD DRSDT MULTX.. BCPROP SOURCE ...), and the 'echo' shape: rarely used keywords of the last prefix block come back in the tail for the same well / group with another value.")
     ASSUMPTIONS = ["states are compared through their own serializeOp member list (all serialized members, caches canonicalised), "
                    "not through operator== (polluted by the unit-system dimension cache)",
                    "Schedule-global registries (action_wgnames, completed cells, restart output, exit status) are not compared",
